@@ -38,3 +38,23 @@ def st_planted_mutant(v: Union[str, List[int]]) -> bool:
     post: _ == True
     """
     return _mutant_data_is_sequence(v) == data_is_sequence(v)
+
+
+_TABLE = {(1, 2): 'a', (3, (4, 5)): 'b'}
+
+
+def st_unhashable_key(v: int) -> int:
+    """
+    pre: 0 <= v <= 1
+    post: _ != 13
+    """
+    # plugin fix 5: a dict lookup with an unhashable key must raise TypeError under the tracer as it does in CPython
+    # (CrossHair's linear-search rewrite of d[key] would turn it into a KeyError); this post-condition must be REFUTED
+    key = (3, [4, v])
+    try:
+        _TABLE[key]
+    except KeyError:
+        return 0
+    except TypeError:
+        return 13
+    return 1
